@@ -6,7 +6,8 @@ CKTYPES = [0, 1, 2, 3, 15]
 KINDS = ["eof", "finished", "ack", "metadata", "nak", "prompt", "keepalive", "filedata"]
 FS_STATUS = {0: [0, 1, 15], 1: [0, 1, 15], 2: [0, 1, 2, 3, 15], 3: [0, 1, 2, 3, 15], 4: [0, 1, 2, 3, 15], 5: [0, 1, 15],
              6: [0, 1, 2, 15], 7: [0, 2, 15], 8: [0, 2, 15]}
-NAMES = ["", "a", "ä.txt", "dir/file.bin", "日本語", "x" * 40, "/data/cfdp/f.bin", "log.cfdp", "\ufeffnotes.txt", "a\ufeffb", "tab\there", "nul\x00in"]
+NAMES = ["", "a", "ä.txt", "dir/file.bin", "日本語", "x" * 40, "/data/cfdp/f.bin", "log.cfdp", "\ufeffnotes.txt", "a\ufeffb", "tab\there", "nul\x00in", "cafe\u0301.txt", "\u212bngstrom", "end\x00", "\x00\x00",
+         "part_{}.bin", "${HOME}/r.bin", "{0.x}{date}", "%s%d"]
 
 
 def classify(e):
